@@ -1137,6 +1137,8 @@ class DimEval:
             i = self.ev(ix["i"], depth + 1)
             if a and i[0] == "lenminus" and i[1] == a:
                 return ("dimR", a, i[2])
+            if a and i[0] == "unk" and "before the first dimension" in str(i[1]):
+                return ("unk", "index before the first dimension")
             return ("unk", "index `%s`" % show(e)[:50])
         return ("unk", "expression `%s`" % show(e)[:50])
 
@@ -1234,6 +1236,30 @@ def r38_matmul_shapes(facts):
                           "the dimensions the operands are broadcast to (and the result's leading dimensions) are copied from %s instead of being the pairwise "
                           "broadcast of both operands' leading dimensions: a unit leading dimension of the chosen operand against a larger one of the other is refused "
                           "(\"unable to broadcast\") although the shapes are compatible, e.g. equal ranks with %s carrying the real batch" % (how, lose))
+        # the listed rank-1 forms: a rank-1 operand next to a rank >= 2 one is a one-row matrix (the right one transposed: a column),
+        # two untransposed rank-1 operands give their dot product
+        forms = [((1, 2, False, False), (("int", 1), ("dimR", "B", 1), ("dimR", "A", 1))),
+                 ((1, 2, False, True), (("int", 1), ("dimR", "B", 2), ("dimR", "A", 1))),
+                 ((1, 3, False, False), (("int", 1), ("dimR", "B", 1), ("dimR", "A", 1))),
+                 ((2, 1, False, True), (("dimR", "A", 2), ("int", 1), ("dimR", "A", 1))),
+                 ((3, 1, False, True), (("dimR", "A", 2), ("int", 1), ("dimR", "A", 1))),
+                 ((2, 1, True, True), (("dimR", "A", 1), ("int", 1), ("dimR", "A", 2))),
+                 ((1, 1, False, False), (("int", 1), ("int", 1), ("dimR", "A", 1)))]
+        for (ra, rb, ta, tb), want3 in forms:
+            de1 = DimEval(facts, lets, {flagv["A"]: ta, flagv["B"]: tb}, names, ranks={"A": ra, "B": rb})
+            inst = "shapes:%s:rank-1:%dx%d,ta=%s,tb=%s" % (name, ra, rb, "T" if ta else "F", "T" if tb else "F")
+            got3 = [de1.ev(f_) for f_ in triple["fields"]]
+            labels3 = ("rows", "cols", "inner length")
+            bad3 = [(lab, g, w) for lab, g, w in zip(labels3, got3, want3) if g != w]
+            if not bad3:
+                c.ok(inst, F.loc(kbody, kc), "rows, cols and inner length of the rank-%d x rank-%d form are %s" % (ra, rb, ", ".join("%s" % (w,) for w in want3)))
+            elif any(g[0] == "unk" and "before the first dimension" not in str(g[1:]) for _, g, _ in bad3):
+                lab, g, w = [x for x in bad3 if x[1][0] == "unk"][0]
+                c.unk(inst, F.loc(kbody, kc), "%s of the rank-%d x rank-%d form is outside the shape evaluator (%s)" % (lab, ra, rb, g[1] if len(g) > 1 else "?"))
+            else:
+                lab, g, w = bad3[0]
+                c.bad(inst, F.loc(kbody, kc), "for a rank-%d left and a rank-%d right operand (ta=%s, tb=%s) the %s is %s; the documented form needs %s" % (
+                    ra, rb, ta, tb, lab, "read before the operand's first dimension (a panic)" if g[0] == "unk" else "%s" % (g,), "%s" % (w,)))
         for ta, tb in itertools.product((False, True), repeat=2):
             tag = "shapes:%s:ta=%s,tb=%s" % (name, "T" if ta else "F", "T" if tb else "F")
             de = DimEval(facts, lets, {flagv["A"]: ta, flagv["B"]: tb}, names)
@@ -2250,4 +2276,176 @@ def r49_addend_coverage(facts):
                 c.ok(inst, F.loc(nb, site), "the copying pipeline writes rows x cols elements for a single-value, a one-row and a full-block additive term (groups up to 3 x 3)")
         if not done:
             c.unk("addend:%s" % name, where0, "no use of the additive term's slice found in the product's slice closure")
+        _addend_validity(facts, c, b)
     return c
+
+
+def _addend_validity(facts, c, b):
+    """which shapes of the additive term the product admits: a single value, or last dimension = cols and (rank 1, or second-last dimension 1 or rows)"""
+    from .config_rules import _panics
+    name = b.get("name")
+    where0 = "%s:%d" % (F.rel(b["file"]), b["sp"][0])
+    root = facts.root(b)
+    ps = [p for p in facts.params(b) if p.get("pat")]
+    cparam = [p["pat"].get("v") for p in ps if (p.get("ty") or "").startswith("core::option::Option<&" + ARRAY)]
+    lets = {}
+    for n in walk(root):
+        if n.get("k") == "Block":
+            for st in n["stmts"]:
+                if st["s"] == "let" and st["pat"].get("k") == "Binding" and st.get("init") is not None:
+                    lets[st["pat"]["v"]] = st["init"]
+    # the variables that hold rows / cols: the kernel call's triple
+    rows_v = cols_v = None
+    for nb in facts.nested(b):
+        for n in walk(facts.root(nb)):
+            if n.get("k") == "Tuple" and n.get("ty") == "(usize, usize, usize)" and len(n["fields"]) == 3:
+                rows_v, cols_v = F.var_of(n["fields"][0]), F.var_of(n["fields"][1])
+    # bindings of the Some(c) payload
+    cvars = set()
+    for n in walk(root):
+        if n.get("k") == "Let" or n.get("k") == "Match":
+            scr = n["e"] if n.get("k") == "Let" else n["scrutinee"]
+            if F.var_of(peel(scr)) in cparam:
+                pats = [n["pat"]] if n.get("k") == "Let" else [a["pat"] for a in n["arms"]]
+                for pt in pats:
+                    for v, _, ty, _ in F.pat_bindings(pt):
+                        cvars.add(v)
+    asserts = []
+    for n, ctx in F.walk_ctx(root):
+        if n.get("k") == "If" and n.get("else") is None and _panics(n["then"]):
+            mentions = False
+            todo = [n["cond"]]
+            seen = set()
+            while todo:
+                e_ = todo.pop()
+                for x in walk(e_):
+                    if x.get("k") in ("VarRef", "UpvarRef"):
+                        if x["v"] in cvars:
+                            mentions = True
+                        elif x["v"] in lets and x["v"] not in seen:
+                            seen.add(x["v"])
+                            todo.append(lets[x["v"]])
+            if mentions:
+                asserts.append((n, ctx))
+    inst = "addend-shapes:%s" % name
+    if not cparam or rows_v is None or cols_v is None or not cvars:
+        c.unk(inst, where0, "the additive term / the output extents are not bound in a recognised form")
+        return
+    if not asserts:
+        # moved into a helper?  a crate-local function that receives the term (or the option) and can refuse
+        helper = None
+        for n in walk(root):
+            if n.get("k") == "Call" and (n.get("callee") or {}).get("resolved_local") and any(
+                    x.get("k") in ("VarRef", "UpvarRef") and (x["v"] in cvars or x["v"] in cparam) for a in n["args"] for x in walk(a)):
+                hb = facts.body(resolved(n))
+                if hb is not None and hb.get("thir") and any(y.get("k") == "If" and _panics(y["then"]) for nb in facts.nested(hb) for y in walk(facts.root(nb))):
+                    helper = hb
+        if helper is not None:
+            c.unk(inst, where0, "the additive term's dimensions are examined in a helper function (%s): which shapes it admits is not evaluated" % helper.get("name"))
+        else:
+            c.bad(inst, where0, "no assertion examines the additive term's dimensions: a term that does not broadcast to [rows, cols] is accepted and copied cyclically")
+        return
+
+    class _U(Exception):
+        pass
+
+    def num(e, env, depth=0):
+        e = strip(e)
+        if not isinstance(e, dict) or depth > 14:
+            raise _U("expr")
+        k = e.get("k")
+        if k == "Literal":
+            v = lit_value(e)
+            if isinstance(v, (int, bool)):
+                return v
+            raise _U("literal")
+        if k in ("VarRef", "UpvarRef"):
+            if e["v"] == rows_v:
+                return env["rows"]
+            if e["v"] == cols_v:
+                return env["cols"]
+            if e["v"] in lets:
+                return num(lets[e["v"]], env, depth + 1)
+            raise _U("variable %s" % e["v"].split("#")[0])
+        if k in ("Borrow", "Deref", "Use", "Cast"):
+            return num(e["e"], env, depth + 1)
+        if k == "Block" and e.get("e") is not None and not e["stmts"]:
+            return num(e["e"], env, depth + 1)
+        if k == "Call" and e["args"] and (callee(e) or "").rsplit("::", 1)[-1] == "len":
+            r_, ch = F.field_chain(e["args"][0])
+            if F.var_of(r_) in cvars and ch == ["dimensions"]:
+                return len(env["dims"])
+            if F.var_of(r_) in cvars and ch == ["values"]:
+                n_ = 1
+                for d in env["dims"]:
+                    n_ *= d
+                return n_
+            raise _U("len")
+        ix = _as_index(e)
+        if ix is not None:
+            r_, ch = F.field_chain(ix["e"])
+            if F.var_of(r_) in cvars and ch == ["dimensions"]:
+                i = num(ix["i"], env, depth + 1)
+                if not (0 <= i < len(env["dims"])):
+                    raise IndexError
+                return env["dims"][i]
+            raise _U("index")
+        if k == "Binary":
+            op = e["op"]
+            a = num(e["l"], env, depth + 1)
+            b_ = num(e["r"], env, depth + 1)
+            if op == "Sub" and a - b_ < 0:
+                raise IndexError      # usize underflow: a panic
+            return {"Add": a + b_, "Sub": a - b_, "Mul": a * b_, "Eq": a == b_, "Ne": a != b_, "Lt": a < b_, "Le": a <= b_, "Gt": a > b_, "Ge": a >= b_}[op]
+        if k == "LogicalOp":
+            a = num(e["l"], env, depth + 1)
+            if e["op"] == "And" and not a:
+                return False
+            if e["op"] == "Or" and a:
+                return True
+            return bool(num(e["r"], env, depth + 1))
+        if k == "Unary" and e.get("op") == "Not":
+            return not num(e["e"], env, depth + 1)
+        if k == "Let":
+            return True         # `if let Some(c) = c`: the term is present in this evaluation
+        raise _U("expression `%s`" % show(e)[:40])
+    wrong = None
+    why = None
+    for rows_ in (2, 3):
+        for cols_ in (2, 3):
+            shapes = [[1], [cols_], [5], [1, 1], [1, cols_], [rows_, cols_], [rows_, 1], [5, cols_], [rows_, 5], [1, 5], [1, 1, cols_], [1, rows_, cols_], [1, 5, cols_]]
+            for dims in shapes:
+                n_ = 1
+                for d in dims:
+                    n_ *= d
+                want = n_ == 1 or (dims[-1] == cols_ and (len(dims) < 2 or dims[-2] in (1, rows_)))
+                env = {"rows": rows_, "cols": cols_, "dims": dims}
+                refused = False
+                try:
+                    for n, ctx in asserts:
+                        reached = True
+                        for cond, truth in F.path_facts(ctx):
+                            if bool(num(cond, env)) != truth:
+                                reached = False
+                                break
+                        if reached and num(n["cond"], env):
+                            refused = True
+                except IndexError:
+                    refused = True
+                except _U as ex:
+                    why = str(ex)
+                    break
+                if refused == want and wrong is None:
+                    wrong = (rows_, cols_, dims, refused)
+            if why:
+                break
+        if why:
+            break
+    if why:
+        c.unk(inst, where0, "the assertion on the additive term is outside the evaluator (%s)" % why)
+    elif wrong:
+        r_, c_, d_, ref = wrong
+        c.bad(inst, F.loc(b, asserts[0][0]), "for a %d x %d product an additive term of dimensions %s is %s, but %s: the admitted shapes are a single value, [cols], [1, cols] and [rows, cols]"
+              % (r_, c_, d_, "refused" if ref else "accepted", "it broadcasts over the rows and must be accepted" if ref else "it does not broadcast to the product and must be refused"))
+    else:
+        c.ok(inst, F.loc(b, asserts[0][0]), "the additive term is admitted exactly when it is a single value or ends in [cols], [1, cols] or [rows, cols] (13 shapes x 4 output sizes)")
